@@ -139,10 +139,15 @@ def includeGo (r : Registry) : Nat → Mod → Link → Option (Link × Option E
 /-- The values of `ms.Modules`, one per key (most modules are bound under two keys). -/
 def moduleEntries (r : Registry) : List Mod := r.modules.filterMap fun kv => r.byId kv.2
 
-/-- The first loop of `process`: `include` for every entry of `ms.Modules`; the errors are
-collected. -/
+/-- `process`: the entries of `ms.Modules` are collected in map order, then
+`sort.SliceStable(mods, by FullName)`. -/
+def modulesByFullName (o : Oracle) (r : Registry) : List Mod :=
+  sortStable (fun a b => decide (a.fullName < b.fullName)) (o.order siteLink (moduleEntries r))
+
+/-- The first loop of `process`: `include` for every entry of `ms.Modules` in full-name order; the
+errors are collected. -/
 def linkAll (o : Oracle) (r : Registry) : Option (Link × List Err) :=
-  (o.order siteLink (moduleEntries r)).foldlM (fun (acc : Link × List Err) m =>
+  (modulesByFullName o r).foldlM (fun (acc : Link × List Err) m =>
       match includeGo r (r.mods.length + 1) m acc.1 with
       | none => none
       | some (st, none) => some (st, acc.2)
@@ -204,9 +209,14 @@ def registerMod (r : Registry) (m : Mod) (acc : Dict × List Err) : Dict × List
         d.bind { key := Vtx.key (ow.name, s.arg), vtx := (ow.name, s.arg), root := m.seq, idx := i, stmt := s })
       acc.1, acc.2)
 
+/-- `resolveIdentities`: the keys of `ms.Modules` are collected in map order, then `sort.Strings(keys)`
+(keys of a map are distinct, so the sorted order is unique); the loop visits `ms.Modules[k]`. -/
+def modulesByKey (o : Oracle) (r : Registry) : List Mod :=
+  (sortStable (fun a b => decide (a.1 < b.1)) (o.order siteModules r.modules)).filterMap fun kv => r.byId kv.2
+
 /-- First loop of `resolveIdentities`. -/
 def buildDict (o : Oracle) (r : Registry) (lk : Link) : Option (Dict × List Err) :=
-  (o.order siteModules (moduleEntries r)).foldlM (fun (acc : Dict × List Err) mod =>
+  (modulesByKey o r).foldlM (fun (acc : Dict × List Err) mod =>
       match walk (includeSucc r lk) (r.mods.length + 1) mod.seq [] with
       | none => none
       | some closure =>
